@@ -1101,4 +1101,194 @@ theorem densify_lookup_prefix_stable' (K : List Nat) (ms : List Nat) :
     exact Nat.le_max_right _ _
   rw [hmax]
 
+/-! # Phase 2 -/
+
+/-! ### built-in filters -/
+
+theorem filtNodes_den (att : Item → Attr) : ∀ (fs : List (Filt × List Nat)) (u : List Item),
+    denN u (filtNodes att fs) = filtDen att u fs
+  | [], _ => rfl
+  | (f, p) :: fs, u => by
+    simp only [filtNodes, List.map_cons, denN, filtDen]
+    exact filtNodes_den att fs _
+
+theorem filtNodes_ok (att : Item → Attr) : ∀ (fs : List (Filt × List Nat)) (u : List Item),
+    chainOK u (filtNodes att fs)
+  | [], _ => trivial
+  | (f, p) :: fs, u => ⟨trivial, trivial, filtNodes_ok att fs _⟩
+
+theorem filter_pipeline_reads' (att : Item → Attr) (fs : List (Filt × List Nat)) (u : List Item) (d : Demand) :
+    viewN u (filtNodes att fs) = filtDen att u fs ∧
+    viewN u (touchN u (filtNodes att fs) d).1 = filtDen att u fs := by
+  obtain ⟨h1, h2, _⟩ := compose_stable' u _ (filtNodes_ok att fs u) d
+  rw [h1, h2, filtNodes_den]
+  exact ⟨rfl, rfl⟩
+
+/-! ### noise -/
+
+theorem noiseScan_take (step : Nat → Item → Nat × Item) : ∀ (u : List Item) (s k : Nat),
+    (noiseScan step s (u.take k)).2 = (noiseScan step s u).2.take k
+  | [], s, k => by simp [noiseScan]
+  | x :: u, s, 0 => by simp [noiseScan]
+  | x :: u, s, k + 1 => by
+    simp only [List.take_succ_cons, noiseScan]
+    rw [noiseScan_take step u]
+
+theorem noiseFresh_eq (step : Nat → Item → Nat × Item) (seed : Nat) (u : List Item) :
+    ∀ ds : List Demand, noiseFresh step seed u ds = ds.map (fun d => d.take (noiseScan step seed u).2)
+  | [] => rfl
+  | d :: ds => by simp only [noiseFresh, List.map_cons]; rw [noiseFresh_eq step seed u ds]
+
+/-! ### collections -/
+
+theorem stepObj_other (w : World) (i : Nat) (o : Obj) (op : Op) (j : Nat) (hij : i ≠ j)
+    (hj : j < w.objs.length) : getObj (stepObj w i o op).1 j = getObj w j := by
+  have hpush : ∀ (w' : World) x, w'.objs.length = w.objs.length → getObj (pushObj w' x) j = getObj w' j := by
+    intro w' x hl
+    simp only [getObj, pushObj]
+    rw [List.getElem?_append_left (by omega)]
+  have hset : ∀ o', getObj (setObj w i o') j = getObj w j := fun o' => getObj_set_other _ _ _ _ hij
+  cases op with
+  | full on => exact hset _
+  | part on k => exact hset _
+  | params on => rfl
+  | cache on => exact hpush w _ rfl
+  | chunk on => exact hpush w _ rfl
+  | materialize on =>
+    simp only [stepObj]
+    split
+    · exact hpush w _ rfl
+    · rw [hpush _ _ (setObj_length _ _ _)]; exact hset _
+  | pickle on =>
+    simp only [stepObj]
+    split
+    · split
+      · exact hpush w _ rfl
+      · exact hpush w _ rfl
+    · exact hpush w _ rfl
+  | save on =>
+    simp only [stepObj]
+    rw [hpush _ _ (setObj_length _ _ _)]; exact hset _
+
+theorem step_other (w : World) (op : Op) (j : Nat) (hij : op.on ≠ j) (hj : j < w.objs.length) :
+    getObj (step w op).1 j = getObj w j := by
+  unfold step
+  split
+  · rename_i o ho
+    exact stepObj_other w _ o op j hij hj
+  · dsimp only
+    split
+    · simp only [getObj, pushObj]; rw [List.getElem?_append_left hj]
+    · rfl
+
+theorem step_length_le (w : World) (op : Op) : w.objs.length ≤ (step w op).1.objs.length := by
+  unfold step
+  split
+  · rename_i o ho
+    cases op <;> simp only [stepObj] <;> (try split) <;> (try split) <;> simp [setObj, pushObj]
+  · dsimp only; split <;> simp [pushObj]
+
+theorem collection_members_independent' : ∀ (ops : List Op) (w : World) (j : Nat),
+    j < w.objs.length → (∀ op ∈ ops, op.on ≠ j) → getObj (runW w ops) j = getObj w j
+  | [], _, _, _, _ => rfl
+  | op :: ops, w, j, hj, h => by
+    simp only [runW]
+    rw [collection_members_independent' ops _ j (Nat.lt_of_lt_of_le hj (step_length_le w op))
+      (fun o ho => h o (List.mem_cons_of_mem _ ho))]
+    exact step_other w op j (h op List.mem_cons_self) hj
+
+/-! ### caller-owned objects -/
+
+theorem hstep_noedit (h : HWorld) (op : Op) (hne : ∀ j, h.argEdit j = none) :
+    (hstep h op).1.caller = h.caller ∧ (hstep h op).1.w = (step h.w op).1 ∧ (hstep h op).2 = (step h.w op).2 ∧
+    (hstep h op).1.argEdit = h.argEdit := by
+  simp [hstep, hne]
+
+theorem caller_objects_unchanged' : ∀ (ops : List Op) (h : HWorld), (∀ j, h.argEdit j = none) →
+    (hrunW h ops).caller = h.caller ∧ hrun h ops = run h.w ops
+  | [], _, _ => ⟨rfl, rfl⟩
+  | op :: ops, h, hne => by
+    obtain ⟨h1, h2, h3, h4⟩ := hstep_noedit h op hne
+    have hne' : ∀ j, (hstep h op).1.argEdit j = none := by rw [h4]; exact hne
+    obtain ⟨i1, i2⟩ := caller_objects_unchanged' ops (hstep h op).1 hne'
+    refine ⟨?_, ?_⟩
+    · simp only [hrunW]; rw [i1, h1]
+    · simp only [hrun, run]; rw [i2, h2, h3]
+
+/-! ### per-instance memoisation -/
+
+theorem lookup_filter_ne {κ β} [BEq κ] [LawfulBEq κ] (k k' : κ) (hk : k' ≠ k) : ∀ es : List (κ × β),
+    (es.filter (fun e => e.1 != k)).lookup k' = es.lookup k'
+  | [] => rfl
+  | (a, b) :: es => by
+    by_cases ha : a = k
+    · have hka : (k' == a) = false := by rw [ha]; simpa using hk
+      have hflt : (a != k) = false := by rw [ha]; simp
+      rw [List.filter_cons_of_neg (by simp [hflt])]
+      simp only [List.lookup, hka]
+      exact lookup_filter_ne k k' hk es
+    · have hne : (a != k) = true := by simpa using ha
+      rw [List.filter_cons_of_pos (by simpa using hne)]
+      simp only [List.lookup]
+      rw [lookup_filter_ne k k' hk es]
+
+/-- one unbounded call: the value of its key is now fixed, no other key changes, a known key keeps its value -/
+theorem memo_call_none (draw : Nat → Nat → Nat → Nat) (m : Memo) (i a : Nat) :
+    (m.call none draw i a).1.entries.lookup (i, a) = some (m.call none draw i a).2 ∧
+    (∀ k v, m.entries.lookup k = some v → (m.call none draw i a).1.entries.lookup k = some v) := by
+  unfold Memo.call
+  cases h : m.entries.lookup (i, a) with
+  | some v =>
+    refine ⟨by simp [List.lookup], ?_⟩
+    intro k v' hk
+    by_cases hka : k = (i, a)
+    · subst hka
+      rw [h] at hk
+      simp [List.lookup, Option.some.inj hk]
+    · have : (k == (i, a)) = false := by simpa using hka
+      simp only [List.lookup, this]
+      rw [lookup_filter_ne (i, a) k hka]; exact hk
+  | none =>
+    refine ⟨by simp [List.lookup], ?_⟩
+    intro k v' hk
+    by_cases hka : k = (i, a)
+    · subst hka; rw [h] at hk; simp at hk
+    · have : (k == (i, a)) = false := by simpa using hka
+      simp only [List.lookup, this]; exact hk
+
+theorem memo_read_none (draw : Nat → Nat → Nat → Nat) : ∀ (qs : List (Nat × Nat)) (m : Memo),
+    (∀ k v, m.entries.lookup k = some v → (Memo.read none draw m qs).1.entries.lookup k = some v) ∧
+    (Memo.read none draw m qs).2 = qs.filterMap (fun q => (Memo.read none draw m qs).1.entries.lookup q) ∧
+    (∀ q ∈ qs, ((Memo.read none draw m qs).1.entries.lookup q).isSome)
+  | [], m => ⟨fun _ _ h => h, rfl, fun _ h => by simp at h⟩
+  | (i, a) :: qs, m => by
+    obtain ⟨c1, c2⟩ := memo_call_none draw m i a
+    obtain ⟨r1, r2, r3⟩ := memo_read_none draw qs (m.call none draw i a).1
+    simp only [Memo.read]
+    refine ⟨fun k v h => r1 k v (c2 k v h), ?_, ?_⟩
+    · have hq := r1 (i, a) _ c1
+      simp only [List.filterMap_cons, hq]
+      rw [← r2]
+    · intro q hq
+      rcases List.mem_cons.mp hq with rfl | hq'
+      · rw [r1 (i, a) _ c1]; rfl
+      · exact r3 q hq'
+
+theorem memo_after_mono (draw : Nat → Nat → Nat → Nat) : ∀ (qss : List (List (Nat × Nat))) (m : Memo) k v,
+    m.entries.lookup k = some v → (Memo.after none draw m qss).entries.lookup k = some v
+  | [], _, _, _, h => h
+  | q :: qss, m, k, v, h => memo_after_mono draw qss _ k v ((memo_read_none draw q m).1 k v h)
+
+theorem memo_stable_across_reads' (draw : Nat → Nat → Nat → Nat) (m : Memo) (qs : List (Nat × Nat))
+    (mids : List (List (Nat × Nat))) :
+    (Memo.read none draw (Memo.after none draw (Memo.read none draw m qs).1 mids) qs).2 = (Memo.read none draw m qs).2 := by
+  obtain ⟨_, a2, a3⟩ := memo_read_none draw qs m
+  obtain ⟨b1, b2, _⟩ := memo_read_none draw qs (Memo.after none draw (Memo.read none draw m qs).1 mids)
+  rw [b2, a2]
+  apply List.filterMap_congr
+  intro q hq
+  obtain ⟨v, hv⟩ := Option.isSome_iff_exists.mp (a3 q hq)
+  rw [hv]
+  exact b1 q v (memo_after_mono draw mids _ q v hv)
+
 end Coba.C04
